@@ -675,6 +675,21 @@ mutual
     | s :: ss => d10FreeStep s && d10FreeSteps ss
 end
 
+/-! ## Step identifiers in pipeline order -/
+
+mutual
+  def idsStep : Step → List Nat
+    | .mk id _ _ beh =>
+      id :: (match beh with
+             | .async _ _ steps => idsSteps steps
+             | _ => [])
+  def idsSteps : List Step → List Nat
+    | [] => []
+    | s :: ss => idsStep s ++ idsSteps ss
+end
+
+def Prog.ids (p : Prog) : List Nat := idsSteps p.steps
+
 /-! ## Sizes (C20) -/
 
 mutual
